@@ -262,6 +262,17 @@ func ZZ_C11_alias() {
 		zzSameSnap(zzSnapItem(tmpl), s0, "list-derive:template-unchanged-after-second")
 		zzSameSnap(zzSnapItem(d), sd, "list-derive:first-result-unchanged-by-second")
 		_ = d2
+		// a map that also holds keys naming nothing in the template: an ellipsis-shaped one, an index-shaped one
+		stray := []string{"...[9]", "...", "p[0]", "zz"}[rt.Choice("stray", 4)]
+		if shape != 2 && stray == "..." {
+			stray = "...[3]"
+		}
+		sd2 := zzSnapItem(d2)
+		d3 := tmpl.FillVariables(map[string]interface{}{stray: 1, "p": int8(rt.Byte("pv") & 0x3f), "q": "y"})
+		zzSameSnap(zzSnapItem(tmpl), s0, "list-derive:template-unchanged-by-fill-with-stray-key")
+		zzSameSnap(zzSnapItem(d), sd, "list-derive:first-result-unchanged-by-fill-with-stray-key")
+		zzSameSnap(zzSnapItem(d2), sd2, "list-derive:second-result-unchanged-by-fill-with-stray-key")
+		_ = d3
 	case 14: // two fills of one template with different values: the first result keeps its values
 		kind := rt.Param("kind")
 		v1, v2 := rt.Byte("v1"), rt.Byte("v2")
